@@ -21,6 +21,7 @@ import (
 	"fmt"
 	"io"
 	"iter"
+	"slices"
 	"sync"
 	"sync/atomic"
 	"time"
@@ -178,9 +179,14 @@ func (w *Worker) Open(ctx context.Context) (err error) {
 		})
 	}()
 
-	for task := range w.FirstTask.Tasks() {
+	tasks := slices.Collect(w.FirstTask.Tasks())
+	for i, task := range tasks {
 		err = task.Open(ctx)
 		if err != nil {
+			// the rollback above closes the tasks that were opened; the one
+			// that failed and the ones never reached still hold their
+			// processor instances (see releaseProcessors)
+			releaseProcessors(ctx, tasks[i:])
 			return cerrors.Errorf("task %s failed to open: %w", task.ID(), err)
 		}
 
@@ -196,6 +202,27 @@ func (w *Worker) Open(ctx context.Context) (err error) {
 
 	r.Skip()
 	return nil
+}
+
+// Release gives back the processor instances of a worker that is discarded
+// without ever having been opened (see releaseProcessors).
+func (w *Worker) Release(ctx context.Context) {
+	releaseProcessors(ctx, slices.Collect(w.FirstTask.Tasks()))
+}
+
+// releaseProcessors tears down the processor tasks among tasks. A processor
+// instance is marked as running when its runnable processor is built, long
+// before Open, and only its Teardown clears that mark. When opening a pipeline
+// fails, the tasks that were never opened (and the one whose Open failed) are
+// not part of the rollback, so without this their processors stayed marked
+// as running forever and every later start of the pipeline was refused with
+// "processor already running".
+func releaseProcessors(ctx context.Context, tasks []Task) {
+	for _, task := range tasks {
+		if pt, ok := task.(*ProcessorTask); ok {
+			_ = pt.Close(ctx)
+		}
+	}
 }
 
 // Stop stops the worker from processing more records. It does not stop the
